@@ -123,9 +123,11 @@ pub fn run(tier: Tier) -> i32 {
 fn large_frames(rep: &Report, tier: Tier) {
     let mgr = mgr_std();
     let pdu_sets: Vec<Vec<usize>> = if tier.thorough() {
-        vec![vec![300, 13000, 100, 40], vec![4090, 4094, 4095, 4096], vec![8200, 1, 4093, 9000], vec![4087, 4088, 4089, 4091, 4092], vec![65000, 5], vec![12285, 12286, 12287], vec![8189, 8190, 8191, 8192]]
+        vec![vec![300, 13000, 100, 40], vec![4090, 4094, 4095, 4096], vec![8200, 1, 4093, 9000], vec![4087, 4088, 4089, 4091, 4092], vec![65000, 5], vec![12285, 12286, 12287], vec![8189, 8190, 8191, 8192], vec![65530, 100, 40], vec![65528, 65533, 7]]
     } else {
-        vec![vec![300, 13000, 100, 40], vec![4090, 4094, 4095, 4096], vec![8200, 1, 4093, 9000], vec![8189, 8190, 8191, 8192]]
+        // the last set sits at the 16-bit total length: 65530 bytes fit with a broadcast label and must be refused with a
+        // 6-byte one (the sender then drops that PDU)
+        vec![vec![300, 13000, 100, 40], vec![4090, 4094, 4095, 4096], vec![8200, 1, 4093, 9000], vec![8189, 8190, 8191, 8192], vec![65530, 100, 40]]
     };
     let frame_sizes: Vec<usize> = if tier.thorough() { vec![4097, 4098, 4099, 4100, 4200, 5000, 8100, 8192, 16384, 70000] } else { vec![4097, 4098, 4100, 8100, 70000] };
     let jobs: Vec<(usize, usize, Lbl)> = (0..pdu_sets.len()).flat_map(|i| frame_sizes.iter().map(move |&f| (i, f))).flat_map(|(i, f)| [L6A, Lbl::Bcast].into_iter().map(move |l| (i, f, l))).collect();
@@ -141,6 +143,7 @@ fn large_frames(rep: &Report, tier: Tier) {
         let mut walker = RxS::new(4, st, &[st, st, st]).build(DefaultCrc {}, mgr.clone());
         let mut twin = RxS::new(4, st, &[st, st, st]).build(DefaultCrc {}, mgr.clone());
         let mut delivered: Vec<Vec<u8>> = vec![];
+        let mut dropped: Vec<usize> = vec![];
         let mut cur: Option<(usize, Ctx)> = None; // PDU being continued
         let mut next_pdu = 0usize;
         let mut bad: Option<String> = None;
@@ -185,6 +188,13 @@ fn large_frames(rep: &Report, tier: Tier) {
                         lens.push(n);
                         off += n;
                     }
+                    // a fresh PDU refused in an EMPTY frame cannot be sent at all (it exceeds the 16-bit total length for its
+                    // label): the sender drops it
+                    EncOut::Err(_) if cur.is_none() && off == 0 => {
+                        dropped.push(next_pdu);
+                        next_pdu += 1;
+                        continue;
+                    }
                     EncOut::Err(_) => break, // no room left in this frame
                     EncOut::Panic(p) => {
                         bad = Some(format!("the encapsulator panics at {}", p));
@@ -198,6 +208,9 @@ fn large_frames(rep: &Report, tier: Tier) {
             }
             frames += 1;
             if lens.is_empty() {
+                if cur.is_none() && next_pdu >= pdus.len() {
+                    break; // the remaining PDUs were all dropped
+                }
                 bad = Some("the encapsulator accepts no packet in an empty frame".into());
                 break;
             }
@@ -245,7 +258,15 @@ fn large_frames(rep: &Report, tier: Tier) {
             twin.reset_last_label();
         }
         acc.states += frames as u64;
-        if bad.is_none() && delivered != pdus {
+        let expected: Vec<Vec<u8>> = pdus.iter().enumerate().filter(|(k, pd)| !dropped.contains(k) || pd.len() + 2 + l.wire_len() <= 65535).map(|(_, pd)| pd.clone()).collect();
+        if bad.is_none() {
+            for &k in &dropped {
+                if pdus[k].len() + 2 + l.wire_len() <= 65535 {
+                    bad = Some(format!("the encapsulator refuses a PDU of {} bytes in an empty frame of {} bytes although it fits the 16-bit total length with this label", pdus[k].len(), fsize));
+                }
+            }
+        }
+        if bad.is_none() && delivered != expected {
             bad = Some(format!("{} PDUs delivered, {} sent, or contents/order differ", delivered.len(), pdus.len()));
         }
         if let Some(b) = bad {
